@@ -166,7 +166,8 @@ class Report:
                    'model': ob.model, 'info': ob.info, 'verifier_output': 'z3: sat (counter-model above)',
                    'replayed': False, 'native_entry': getattr(spec, 'native', None)}
             nat = getattr(spec, 'native', None)
-            if nat and n_native < 24 and n_repro < 4:
+            is_known = any(k.get('status') == 'known' and self._matches(k, ob.name) for k in self.known)
+            if nat and n_native < 24 and n_repro < 4 and not is_known:
                 n_native += 1
                 try:
                     res = native.replay(nat, ob.model, dict(ob.info or {}, obligation=ob.name))
